@@ -669,6 +669,8 @@ def build(case, front=None):
 def declare(case, m, x, pieces):
     """state bounds, linear rows, atoms, cones and the objective"""
     n = case['n']
+    if case.get('obj_first'):
+        declare_objective(case, m, x)
     lo = np.array([(-np.inf if b[1] is None else b[1]) for b in case['bounds']])
     hi = np.array([(np.inf if b[2] is None else b[2]) for b in case['bounds']])
     bs = case.get('bound_style', 'array')
@@ -749,6 +751,12 @@ def declare(case, m, x, pieces):
         m.st(atom_constraint(a, x))
     for c in case.get('cones', []):
         m.st(cone_constraint(c, x))
+    if not case.get('obj_first'):
+        declare_objective(case, m, x)
+    return handles
+
+
+def declare_objective(case, m, x):
     o = case['obj']
     c = np.array(o['c'], dtype=float)
     e = c @ x + o['c0']
@@ -764,7 +772,6 @@ def declare(case, m, x, pieces):
         (m.max if o['sense'] == 'min' else m.min)(-e)
     else:
         (m.min if o['sense'] == 'min' else m.max)(e)
-    return handles
 
 
 def cone_constraint(c, x):
